@@ -127,7 +127,7 @@ func respell(t *rapid.T) (*gen.Style, []string, bool) {
 	st := gen.DefaultStyle()
 	var names []string
 	permute := false
-	all := []string{"newline", "indent", "comments", "multiline", "spread", "quote-names", "trailing-comma", "blank-lines", "rule-order", "space-before-colon", "empty-annotations", "mixed-annotations", "enum-item-notes", "note-on-next-line", "join-lines", "notes", "stray-notes", "blank-in-empty", "prop-after-array", "name-gap", "block-in-rules", "colon-gap", "tight-annotations", "split-annotations", "tight-comments", "value-on-next-line", "key-comments", "close-late"}
+	all := []string{"newline", "indent", "comments", "multiline", "spread", "quote-names", "trailing-comma", "blank-lines", "rule-order", "space-before-colon", "empty-annotations", "mixed-annotations", "enum-item-notes", "note-on-next-line", "join-lines", "notes", "stray-notes", "blank-in-empty", "prop-after-array", "name-gap", "block-in-rules", "colon-gap", "tight-annotations", "split-annotations", "tight-comments", "value-on-next-line", "key-comments", "close-late", "block-over-lines", "empty-open", "block-before-rules", "empty-after-annotation", "item-note-extras"}
 	n := rapid.IntRange(1, 5).Draw(t, "nrewrites")
 	for _, r := range rapid.Permutation(all).Draw(t, "rewrites")[:n] {
 		names = append(names, r)
@@ -188,6 +188,23 @@ func respell(t *rapid.T) (*gen.Style, []string, bool) {
 			st.KeyComments = rapid.IntRange(1, 3).Draw(t, "keyComments") // user comments between a key and its colon, between the colon and the value
 		case "close-late":
 			st.CloseLate = rapid.IntRange(1, 2).Draw(t, "closeLate") // a multi-line annotation closes on the next line, the sibling starts there
+			if !st.MultiLine && st.MixedAnn == 0 {
+				st.MultiLine = true
+			}
+		case "block-over-lines":
+			st.BlockOverLines = rapid.IntRange(1, 2).Draw(t, "blockOverLines") // a ### block comment from the line of one sibling to the line where the next one starts
+		case "empty-open":
+			st.EmptyOpen = rapid.IntRange(1, 2).Draw(t, "emptyOpen") // the annotation of an empty container behind its opening bracket, a note behind the closing one
+		case "block-before-rules":
+			st.BlockBeforeRules = rapid.IntRange(1, 2).Draw(t, "blockBeforeRules") // ### c ### between the slashes of an inline annotation and its rule object
+		case "empty-after-annotation":
+			st.EmptyAfterAnn = rapid.IntRange(1, 2).Draw(t, "emptyAfterAnn") // a second, empty annotation behind a multi-line one
+			if !st.MultiLine && st.MixedAnn == 0 {
+				st.MultiLine = true
+			}
+		case "item-note-extras":
+			st.ItemNoteExtras = rapid.IntRange(1, 2).Draw(t, "itemNoteExtras") // nobody's notes (also two in a row) between the items of an enum list
+			st.AutoItemNotes = true
 			if !st.MultiLine && st.MixedAnn == 0 {
 				st.MultiLine = true
 			}
